@@ -1,0 +1,264 @@
+package value_test
+
+import (
+	"math"
+	"math/big"
+	"testing"
+
+	"github.com/elk-language/elk/value"
+)
+
+func TestCompareInt64WithFloat64(t *testing.T) {
+	tests := map[string]struct {
+		i    int64
+		f    float64
+		want int
+	}{
+		"equal small":                     {i: 5, f: 5, want: 0},
+		"less than small":                 {i: 4, f: 5, want: -1},
+		"greater than small":              {i: 6, f: 5, want: 1},
+		"zero and positive zero":          {i: 0, f: 0, want: 0},
+		"zero and negative zero":          {i: 0, f: math.Copysign(0, -1), want: 0},
+		"zero and positive fraction":      {i: 0, f: 0.5, want: -1},
+		"zero and negative fraction":      {i: 0, f: -0.5, want: 1},
+		"one and positive fraction":       {i: 1, f: 0.5, want: 1},
+		"minus one and negative fraction": {i: -1, f: -0.5, want: -1},
+		"fraction just above":             {i: 7, f: 7.25, want: -1},
+		"fraction just below":             {i: 7, f: 6.75, want: 1},
+		"negative fraction just above":    {i: -7, f: -6.75, want: -1},
+		"negative fraction just below":    {i: -7, f: -7.25, want: 1},
+		"2^53 and 2^53":                   {i: 1 << 53, f: 0x1p53, want: 0},
+		"2^53+1 and 2^53":                 {i: 1<<53 + 1, f: 0x1p53, want: 1},
+		"2^53+1 and 2^53+2":               {i: 1<<53 + 1, f: 0x1p53 + 2, want: -1},
+		"2^53-1 and 2^53":                 {i: 1<<53 - 1, f: 0x1p53, want: -1},
+		"-(2^53+1) and -2^53":             {i: -(1<<53 + 1), f: -0x1p53, want: -1},
+		"-(2^53+1) and -(2^53+2)":         {i: -(1<<53 + 1), f: -0x1p53 - 2, want: 1},
+		"max int64 and 2^63":              {i: math.MaxInt64, f: 0x1p63, want: -1},
+		"max int64 and 2^63-1024":         {i: math.MaxInt64, f: 0x1p63 - 1024, want: 1},
+		"2^63-1024 and 2^63-1024":         {i: math.MaxInt64 - 1023, f: 0x1p63 - 1024, want: 0},
+		"min int64 and -2^63":             {i: math.MinInt64, f: -0x1p63, want: 0},
+		"min int64+1 and -2^63":           {i: math.MinInt64 + 1, f: -0x1p63, want: 1},
+		"min int64 and -2^63-2048":        {i: math.MinInt64, f: -0x1p63 - 2048, want: 1},
+		"max int64 and max float":         {i: math.MaxInt64, f: math.MaxFloat64, want: -1},
+		"min int64 and -max float":        {i: math.MinInt64, f: -math.MaxFloat64, want: 1},
+		"max int64 and +Inf":              {i: math.MaxInt64, f: math.Inf(1), want: -1},
+		"min int64 and -Inf":              {i: math.MinInt64, f: math.Inf(-1), want: 1},
+		"zero and NaN":                    {i: 0, f: math.NaN(), want: 2},
+		"zero and smallest denormal":      {i: 0, f: math.SmallestNonzeroFloat64, want: -1},
+	}
+
+	for name, tc := range tests {
+		t.Run(name, func(t *testing.T) {
+			got := value.CompareInt64WithFloat64(tc.i, tc.f)
+			if got != tc.want {
+				t.Fatalf("CompareInt64WithFloat64(%d, %v) = %d, want %d", tc.i, tc.f, got, tc.want)
+			}
+		})
+	}
+}
+
+func TestCompareUint64WithFloat64(t *testing.T) {
+	tests := map[string]struct {
+		u    uint64
+		f    float64
+		want int
+	}{
+		"equal small":                {u: 5, f: 5, want: 0},
+		"less than small":            {u: 4, f: 5, want: -1},
+		"greater than small":         {u: 6, f: 5, want: 1},
+		"zero and positive zero":     {u: 0, f: 0, want: 0},
+		"zero and negative zero":     {u: 0, f: math.Copysign(0, -1), want: 0},
+		"zero and positive fraction": {u: 0, f: 0.5, want: -1},
+		"zero and negative fraction": {u: 0, f: -0.5, want: 1},
+		"zero and minus one":         {u: 0, f: -1, want: 1},
+		"one and positive fraction":  {u: 1, f: 0.5, want: 1},
+		"2^53 and 2^53":              {u: 1 << 53, f: 0x1p53, want: 0},
+		"2^53+1 and 2^53":            {u: 1<<53 + 1, f: 0x1p53, want: 1},
+		"2^53+1 and 2^53+2":          {u: 1<<53 + 1, f: 0x1p53 + 2, want: -1},
+		"2^63 and 2^63":              {u: 1 << 63, f: 0x1p63, want: 0},
+		"2^63+1 and 2^63":            {u: 1<<63 + 1, f: 0x1p63, want: 1},
+		"2^63-1 and 2^63":            {u: 1<<63 - 1, f: 0x1p63, want: -1},
+		"max uint64 and 2^64":        {u: math.MaxUint64, f: 0x1p64, want: -1},
+		"max uint64 and 2^64-2048":   {u: math.MaxUint64, f: 0x1p64 - 2048, want: 1},
+		"2^64-2048 and 2^64-2048":    {u: math.MaxUint64 - 2047, f: 0x1p64 - 2048, want: 0},
+		"max uint64 and +Inf":        {u: math.MaxUint64, f: math.Inf(1), want: -1},
+		"zero and -Inf":              {u: 0, f: math.Inf(-1), want: 1},
+		"zero and NaN":               {u: 0, f: math.NaN(), want: 2},
+	}
+
+	for name, tc := range tests {
+		t.Run(name, func(t *testing.T) {
+			got := value.CompareUint64WithFloat64(tc.u, tc.f)
+			if got != tc.want {
+				t.Fatalf("CompareUint64WithFloat64(%d, %v) = %d, want %d", tc.u, tc.f, got, tc.want)
+			}
+		})
+	}
+}
+
+func TestCompareBigIntWithFloat64(t *testing.T) {
+	pow2 := func(n uint) *big.Int {
+		return new(big.Int).Lsh(big.NewInt(1), n)
+	}
+	add := func(i *big.Int, n int64) *big.Int {
+		return new(big.Int).Add(i, big.NewInt(n))
+	}
+	tenPow400 := new(big.Int).Exp(big.NewInt(10), big.NewInt(400), nil)
+	negTenPow400 := new(big.Int).Neg(tenPow400)
+
+	tests := map[string]struct {
+		i    *big.Int
+		f    float64
+		want int
+	}{
+		"equal small":                    {i: big.NewInt(5), f: 5, want: 0},
+		"zero and negative zero":         {i: big.NewInt(0), f: math.Copysign(0, -1), want: 0},
+		"zero and positive fraction":     {i: big.NewInt(0), f: 0.5, want: -1},
+		"zero and negative fraction":     {i: big.NewInt(0), f: -0.5, want: 1},
+		"2^53+1 and 2^53":                {i: add(pow2(53), 1), f: 0x1p53, want: 1},
+		"2^63 and 2^63":                  {i: pow2(63), f: 0x1p63, want: 0},
+		"2^63+1 and 2^63":                {i: add(pow2(63), 1), f: 0x1p63, want: 1},
+		"2^63-1 and 2^63":                {i: add(pow2(63), -1), f: 0x1p63, want: -1},
+		"2^64 and 2^64":                  {i: pow2(64), f: 0x1p64, want: 0},
+		"2^64+1 and 2^64":                {i: add(pow2(64), 1), f: 0x1p64, want: 1},
+		"2^64-1 and 2^64":                {i: add(pow2(64), -1), f: 0x1p64, want: -1},
+		"-(2^64+1) and -2^64":            {i: new(big.Int).Neg(add(pow2(64), 1)), f: -0x1p64, want: -1},
+		"2^200+1 and 2^200":              {i: add(pow2(200), 1), f: 0x1p200, want: 1},
+		"2^200-1 and 2^200":              {i: add(pow2(200), -1), f: 0x1p200, want: -1},
+		"2^200 and 2^200":                {i: pow2(200), f: 0x1p200, want: 0},
+		"2^64 and next float after 2^64": {i: pow2(64), f: math.Nextafter(0x1p64, math.Inf(1)), want: -1},
+		"10^400 and max float":           {i: tenPow400, f: math.MaxFloat64, want: 1},
+		"-10^400 and -max float":         {i: negTenPow400, f: -math.MaxFloat64, want: -1},
+		"10^400 and +Inf":                {i: tenPow400, f: math.Inf(1), want: -1},
+		"-10^400 and -Inf":               {i: negTenPow400, f: math.Inf(-1), want: 1},
+		"2^64 and NaN":                   {i: pow2(64), f: math.NaN(), want: 2},
+	}
+
+	for name, tc := range tests {
+		t.Run(name, func(t *testing.T) {
+			got := value.CompareBigIntWithFloat64(tc.i, tc.f)
+			if got != tc.want {
+				t.Fatalf("CompareBigIntWithFloat64(%s, %v) = %d, want %d", tc.i, tc.f, got, tc.want)
+			}
+		})
+	}
+}
+
+func TestExactMixedComparison(t *testing.T) {
+	twoPow63 := value.Ref(value.ParseBigIntPanic("9223372036854775808", 10))
+	twoPow64Plus1 := value.Ref(value.ParseBigIntPanic("18446744073709551617", 10))
+
+	t.Run("relational operators", func(t *testing.T) {
+		tests := map[string]struct {
+			fn   func(left, right value.Value) (value.Value, value.Value)
+			a, b value.Value
+			want value.Value
+		}{
+			"2^53+1 <= 2^53.0":      {fn: value.LessThanEqualVal, a: value.SmallInt(1<<53 + 1).ToValue(), b: value.Float(1 << 53).ToValue(), want: value.False.ToValue()},
+			"2^53+1 > 2^53.0":       {fn: value.GreaterThanVal, a: value.SmallInt(1<<53 + 1).ToValue(), b: value.Float(1 << 53).ToValue(), want: value.True.ToValue()},
+			"2^53+1 >= 2^53.0":      {fn: value.GreaterThanEqualVal, a: value.SmallInt(1<<53 + 1).ToValue(), b: value.Float(1 << 53).ToValue(), want: value.True.ToValue()},
+			"2^53+1 < 2^53.0":       {fn: value.LessThanVal, a: value.SmallInt(1<<53 + 1).ToValue(), b: value.Float(1 << 53).ToValue(), want: value.False.ToValue()},
+			"2^53+1 <=> 2^53.0":     {fn: value.CompareVal, a: value.SmallInt(1<<53 + 1).ToValue(), b: value.Float(1 << 53).ToValue(), want: value.SmallInt(1).ToValue()},
+			"2^53.0 <=> 2^53+1":     {fn: value.CompareVal, a: value.Float(1 << 53).ToValue(), b: value.SmallInt(1<<53 + 1).ToValue(), want: value.SmallInt(-1).ToValue()},
+			"2^53.0 < 2^53+1":       {fn: value.LessThanVal, a: value.Float(1 << 53).ToValue(), b: value.SmallInt(1<<53 + 1).ToValue(), want: value.True.ToValue()},
+			"2^53.0 >= 2^53+1":      {fn: value.GreaterThanEqualVal, a: value.Float(1 << 53).ToValue(), b: value.SmallInt(1<<53 + 1).ToValue(), want: value.False.ToValue()},
+			"2^64+1 > 2^64.0":       {fn: value.GreaterThanVal, a: twoPow64Plus1, b: value.Float(0x1p64).ToValue(), want: value.True.ToValue()},
+			"2^64+1 <= 2^64.0":      {fn: value.LessThanEqualVal, a: twoPow64Plus1, b: value.Float(0x1p64).ToValue(), want: value.False.ToValue()},
+			"2^64+1 <=> 2^64.0":     {fn: value.CompareVal, a: twoPow64Plus1, b: value.Float(0x1p64).ToValue(), want: value.SmallInt(1).ToValue()},
+			"2^64.0 <=> 2^64+1":     {fn: value.CompareVal, a: value.Float(0x1p64).ToValue(), b: twoPow64Plus1, want: value.SmallInt(-1).ToValue()},
+			"2^64.0 < 2^64+1":       {fn: value.LessThanVal, a: value.Float(0x1p64).ToValue(), b: twoPow64Plus1, want: value.True.ToValue()},
+			"2^64.0 >= 2^64+1":      {fn: value.GreaterThanEqualVal, a: value.Float(0x1p64).ToValue(), b: twoPow64Plus1, want: value.False.ToValue()},
+			"1 <= NaN":              {fn: value.LessThanEqualVal, a: value.SmallInt(1).ToValue(), b: value.FloatNaN().ToValue(), want: value.False.ToValue()},
+			"1 >= NaN":              {fn: value.GreaterThanEqualVal, a: value.SmallInt(1).ToValue(), b: value.FloatNaN().ToValue(), want: value.False.ToValue()},
+			"NaN <= 1":              {fn: value.LessThanEqualVal, a: value.FloatNaN().ToValue(), b: value.SmallInt(1).ToValue(), want: value.False.ToValue()},
+			"NaN >= 2^64+1":         {fn: value.GreaterThanEqualVal, a: value.FloatNaN().ToValue(), b: twoPow64Plus1, want: value.False.ToValue()},
+			"1 <=> NaN":             {fn: value.CompareVal, a: value.SmallInt(1).ToValue(), b: value.FloatNaN().ToValue(), want: value.Nil},
+			"NaN <=> 2^64+1":        {fn: value.CompareVal, a: value.FloatNaN().ToValue(), b: twoPow64Plus1, want: value.Nil},
+			"2^64+1 < +Inf":         {fn: value.LessThanVal, a: twoPow64Plus1, b: value.FloatInf().ToValue(), want: value.True.ToValue()},
+			"-Inf < 2^64+1":         {fn: value.LessThanVal, a: value.FloatNegInf().ToValue(), b: twoPow64Plus1, want: value.True.ToValue()},
+			"0 <=> -0.0":            {fn: value.CompareVal, a: value.SmallInt(0).ToValue(), b: value.Float(math.Copysign(0, -1)).ToValue(), want: value.SmallInt(0).ToValue()},
+			"1 > 0.5":               {fn: value.GreaterThanVal, a: value.SmallInt(1).ToValue(), b: value.Float(0.5).ToValue(), want: value.True.ToValue()},
+			"-0.5 > -1":             {fn: value.GreaterThanVal, a: value.Float(-0.5).ToValue(), b: value.SmallInt(-1).ToValue(), want: value.True.ToValue()},
+			"-0.5 <= 0":             {fn: value.LessThanEqualVal, a: value.Float(-0.5).ToValue(), b: value.SmallInt(0).ToValue(), want: value.True.ToValue()},
+			"5.0 <= 5 (equal case)": {fn: value.LessThanEqualVal, a: value.Float(5).ToValue(), b: value.SmallInt(5).ToValue(), want: value.True.ToValue()},
+			"5 >= 5.0 (equal case)": {fn: value.GreaterThanEqualVal, a: value.SmallInt(5).ToValue(), b: value.Float(5).ToValue(), want: value.True.ToValue()},
+		}
+
+		for name, tc := range tests {
+			t.Run(name, func(t *testing.T) {
+				got, err := tc.fn(tc.a, tc.b)
+				if !err.IsUndefined() {
+					t.Fatalf("unexpected error: %s", err.Inspect())
+				}
+				if got != tc.want {
+					t.Fatalf("got %s, want %s", got.Inspect(), tc.want.Inspect())
+				}
+			})
+		}
+	})
+
+	t.Run("lax equal", func(t *testing.T) {
+		tests := map[string]struct {
+			a, b value.Value
+			want value.Value
+		}{
+			"5.0 =~ 5u":                    {a: value.Float(5).ToValue(), b: value.UInt(5).ToValue(), want: value.True.ToValue()},
+			"5u =~ 5.0":                    {a: value.UInt(5).ToValue(), b: value.Float(5).ToValue(), want: value.True.ToValue()},
+			"2^63 =~ 2^63u64":              {a: twoPow63, b: value.UInt64(1 << 63).ToValue(), want: value.True.ToValue()},
+			"2^63u64 =~ 2^63":              {a: value.UInt64(1 << 63).ToValue(), b: twoPow63, want: value.True.ToValue()},
+			"2^63 =~ 2^63u":                {a: twoPow63, b: value.UInt(1 << 63).ToValue(), want: value.True.ToValue()},
+			"16777216.0f32 =~ 16777217i32": {a: value.Float32(16777216).ToValue(), b: value.Int32(16777217).ToValue(), want: value.False.ToValue()},
+			"16777217i32 =~ 16777216.0f32": {a: value.Int32(16777217).ToValue(), b: value.Float32(16777216).ToValue(), want: value.False.ToValue()},
+			"16777216.0f32 =~ 16777216i32": {a: value.Float32(16777216).ToValue(), b: value.Int32(16777216).ToValue(), want: value.True.ToValue()},
+			"16777216.0f32 =~ 16777217u32": {a: value.Float32(16777216).ToValue(), b: value.UInt32(16777217).ToValue(), want: value.False.ToValue()},
+			"2^53.0 =~ 2^53+1":             {a: value.Float(1 << 53).ToValue(), b: value.SmallInt(1<<53 + 1).ToValue(), want: value.False.ToValue()},
+			"2^53+1 =~ 2^53.0":             {a: value.SmallInt(1<<53 + 1).ToValue(), b: value.Float(1 << 53).ToValue(), want: value.False.ToValue()},
+			"2^53+1 =~ 2^53.0f64":          {a: value.SmallInt(1<<53 + 1).ToValue(), b: value.Float64(1 << 53).ToValue(), want: value.False.ToValue()},
+			"2^53.0f64 =~ 2^53+1":          {a: value.Float64(1 << 53).ToValue(), b: value.SmallInt(1<<53 + 1).ToValue(), want: value.False.ToValue()},
+			"2^53.0f64 =~ 2^53+1i64":       {a: value.Float64(1 << 53).ToValue(), b: value.Int64(1<<53 + 1).ToValue(), want: value.False.ToValue()},
+			"2^53+1i64 =~ 2^53.0f64":       {a: value.Int64(1<<53 + 1).ToValue(), b: value.Float64(1 << 53).ToValue(), want: value.False.ToValue()},
+			"2^53+1u64 =~ 2^53.0":          {a: value.UInt64(1<<53 + 1).ToValue(), b: value.Float(1 << 53).ToValue(), want: value.False.ToValue()},
+			"2^53.0 =~ 2^53+1u64":          {a: value.Float(1 << 53).ToValue(), b: value.UInt64(1<<53 + 1).ToValue(), want: value.False.ToValue()},
+			"2^53.0 =~ 2^53u64":            {a: value.Float(1 << 53).ToValue(), b: value.UInt64(1 << 53).ToValue(), want: value.True.ToValue()},
+			"2^64+1 =~ 2^64.0":             {a: twoPow64Plus1, b: value.Float(0x1p64).ToValue(), want: value.False.ToValue()},
+			"2^64.0 =~ 2^64+1":             {a: value.Float(0x1p64).ToValue(), b: twoPow64Plus1, want: value.False.ToValue()},
+			"2^64.0f64 =~ 2^64+1":          {a: value.Float64(0x1p64).ToValue(), b: twoPow64Plus1, want: value.False.ToValue()},
+			"2^63 =~ 2^63.0":               {a: twoPow63, b: value.Float(0x1p63).ToValue(), want: value.True.ToValue()},
+			"2^63.0 =~ 2^63":               {a: value.Float(0x1p63).ToValue(), b: twoPow63, want: value.True.ToValue()},
+			"max u64 =~ 2^64.0":            {a: value.UInt64(math.MaxUint64).ToValue(), b: value.Float(0x1p64).ToValue(), want: value.False.ToValue()},
+			"2^64.0 =~ max u64":            {a: value.Float(0x1p64).ToValue(), b: value.UInt64(math.MaxUint64).ToValue(), want: value.False.ToValue()},
+			"max i64 =~ 2^63.0":            {a: value.Int64(math.MaxInt64).ToValue(), b: value.Float(0x1p63).ToValue(), want: value.False.ToValue()},
+			"0 =~ -0.0":                    {a: value.SmallInt(0).ToValue(), b: value.Float(math.Copysign(0, -1)).ToValue(), want: value.True.ToValue()},
+			"-0.0 =~ 0u8":                  {a: value.Float(math.Copysign(0, -1)).ToValue(), b: value.UInt8(0).ToValue(), want: value.True.ToValue()},
+			"NaN =~ 0":                     {a: value.FloatNaN().ToValue(), b: value.SmallInt(0).ToValue(), want: value.False.ToValue()},
+			"0 =~ NaN":                     {a: value.SmallInt(0).ToValue(), b: value.FloatNaN().ToValue(), want: value.False.ToValue()},
+			"5.5 =~ 5":                     {a: value.Float(5.5).ToValue(), b: value.SmallInt(5).ToValue(), want: value.False.ToValue()},
+			"-5.0 =~ -5i8":                 {a: value.Float(-5).ToValue(), b: value.Int8(-5).ToValue(), want: value.True.ToValue()},
+		}
+
+		for name, tc := range tests {
+			t.Run(name, func(t *testing.T) {
+				got := value.LaxEqualVal(tc.a, tc.b)
+				if got != tc.want {
+					t.Fatalf("got %s, want %s", got.Inspect(), tc.want.Inspect())
+				}
+			})
+		}
+	})
+
+	t.Run("hash of zero ignores the sign", func(t *testing.T) {
+		negZero := math.Copysign(0, -1)
+		if value.Float(0).Hash() != value.Float(negZero).Hash() {
+			t.Fatal("Float: hash of 0.0 differs from hash of -0.0")
+		}
+		if value.Float64(0).Hash() != value.Float64(negZero).Hash() {
+			t.Fatal("Float64: hash of 0.0 differs from hash of -0.0")
+		}
+		if value.Float32(0).Hash() != value.Float32(negZero).Hash() {
+			t.Fatal("Float32: hash of 0.0 differs from hash of -0.0")
+		}
+		if value.Float(1).Hash() == value.Float(-1).Hash() {
+			t.Fatal("Float: hash of 1.0 equals hash of -1.0")
+		}
+	})
+}
